@@ -34,6 +34,25 @@ def run(ctx):
         r = ctx.vh("sched", args, timeout=3000)
         se.report(ctx, r, args, "C08", also=("C01", "C02", "C10"))
         se.validate(ctx, r, out, f"trace_w{workers}", workers=workers)
+    # the sequential path and the sequential replay read the committed cache directly (no multi-version memory):
+    # the same blocks forced sequential, and through the configuration matrix (fallback entry, thresholds)
+    args = {"groups": ["SCHED"], "workers": 1, "max_runs": 2, "seed": ctx.seed, "out": ctx.path("seq.ndjson"), "scenarios": fam, "force_sequential": True}
+    r = ctx.vh("sched", args, timeout=3000)
+    se.report(ctx, r, args, "C08", also=("C01", "C02", "C10"))
+    r = ctx.vh("matrix", {"scenarios": fam, "repeat": 1 if quick else 5}, timeout=3000)
+    for v in r.get("violations", []):
+        ctx.violation("C06: " + v["what"], {"kind": "matrix", "scenario": v["scenario"], "configs": v["configs"]})
+    ctx.evaluations += r.get("runs", 0)
+    # the committed cache serves the sequential path and the sequential replay: the same destroy / create / re-create
+    # histories as single transactions against ParallelState and revm State side by side (readable values after every step)
+    h = ctx.vh("statehist", {"max_runs": 400 if quick else 20000, "seed": ctx.seed}, timeout=3000)
+    ctx.evaluations += h["runs"]
+    for v in h["violations"]:
+        ctx.violation(f"the committed cache differs from revm State ({v['class']}): {v['what']}",
+                      {"kind": "statehist", "history": v["history"], "spec": v["spec"], "prepopulated": v["prepopulated"]})
+    # the life cycle of one account as a rule (rules/Lifecycle.tla): all operation sequences up to length 4 on three
+    # database images and two fork regimes
+    se.lifecycle(ctx, "C08", quick)
     ctx.notes["scenarios"] = [f["name"] for f in fam]
     ctx.assumptions += ["forks Shanghai, Cancun (and Prague in the thorough tier); Frontier..Berlin rule sets are not exercised (PUSH0-free bytecode would be needed)",
                         "the reset-marker rule of Grevm.tla is validated on every recorded read (version, masking, value)"]
